@@ -53,6 +53,8 @@ typedef struct vh_harness {
 } vh_harness;
 
 int vh_main(int argc, char **argv, const vh_harness *h);
+/* harness-specific options are passed as "--x-NAME VALUE" */
+const char *vh_arg(const char *name, const char *def);
 
 /* reporting */
 void vh_desc(const char *fmt, ...) __attribute__((format(printf, 1, 2)));
